@@ -472,328 +472,9 @@ func (a *analysis) linearizability() {
 			}
 		}
 		sort.Strings(dump)
-		a.viol("linearizability:"+name, fmt.Sprintf("the operations on resource %d (%s/%s) have no linearization w.r.t. the sequential storage contract (refuted using %s operations, %d ops)", r, zvTen[resTen(r)][1], resName(r), name, len(dump)),
+		a.viol("linearizability:"+name, fmt.Sprintf("the operations on resource %d (%s/%s) have no linearization w.r.t. the sequential storage contract (refuted using %s operations, %d ops)", r, a.h.U.tens[resTen(r)][1], resName(r), name, len(dump)),
 			map[string]any{"resource": r, "partition": dump})
 	}
-}
-
-// ---------------- (3) watch monitor ----------------
-
-type wlast struct {
-	known   bool
-	present bool
-	uid     string
-	ver     string
-}
-
-func (a *analysis) endsOf(r int, uid string) []*opRec {
-	var out []*opRec
-	for _, d := range a.dels[r] {
-		if d.Uid == uid {
-			out = append(out, d)
-		}
-	}
-	return out
-}
-
-// epoch of a watch generation w.r.t. the restore: 0 = its snapshot phase ended before the restore
-// began (or there is no restore), 1 = it started after the restore returned, -1 = straddles.
-func (a *analysis) epoch(g *watchGen, eosT int64) int {
-	if !a.restored() {
-		return 0
-	}
-	if eosT >= 0 && eosT < a.h.Rest.Call {
-		return 0
-	}
-	if g.Call > a.h.Rest.Ret {
-		return 1
-	}
-	return -1
-}
-
-func (a *analysis) watchGen(g *watchGen) {
-	h := a.h
-	run := a.run
-	what := func(s string, args ...any) string {
-		return fmt.Sprintf("watcher %d generation %d scope %+v: ", g.Watcher, g.Gen, g.Scope) + fmt.Sprintf(s, args...)
-	}
-	ex := map[string]any{"watch": g}
-	if strings.HasPrefix(g.End, "err:") {
-		a.viol("watch:unexpected-error", what("ended with %s", g.End), ex)
-		return
-	}
-	postRestore := a.restored() && g.Call > h.Rest.Ret
-	preRestore := a.restored() && g.Ret < h.Rest.Call
-	var last [nRes]wlast
-	var lastRaft [nRes]uint64
-	eos := -1
-	eosT := int64(-1)
-	listing := map[int]item{}
-	for i := range g.Events {
-		e := &g.Events[i]
-		// (4) a watch that existed when the restore happened must be closed: no Next called after the
-		// restore returned may deliver anything
-		if preRestore && e.NextCall > h.Rest.Ret {
-			a.viol("restore:watch-not-closed", what("Next called at %d, after the restore returned at %d, delivered a %s event instead of ErrWatchClosed", e.NextCall, h.Rest.Ret, e.Kind), ex)
-			return
-		}
-		switch e.Kind {
-		case "eos":
-			if eos >= 0 {
-				a.viol("watch:second-end-of-snapshot", what("event %d is a second EndOfSnapshot", i), ex)
-				return
-			}
-			eos, eosT = i, e.T
-			for r := 0; r < nRes; r++ {
-				if g.Scope.matches(r) && !last[r].known {
-					last[r] = wlast{known: true}
-				}
-			}
-			if len(listing) > 0 {
-				run.Count("watch_nonempty_initial_listings")
-			}
-			continue
-		case "unknown":
-			a.viol("watch:unknown-event-type", what("event %d has an unknown type", i), ex)
-			return
-		}
-		it := e.It
-		if it.Bad != "" || it.Res < 0 || !g.Scope.matches(it.Res) {
-			a.viol("watch:event-outside-scope", what("event %d (%s %+v) is not covered by the watch", i, e.Kind, it), ex)
-			return
-		}
-		r := it.Res
-		w := a.wr[r][it.Ver]
-		if w == nil || w.Out.Uid != it.Uid || w.Out.Pid != it.Pid || w.Out.Owner != it.Owner {
-			a.viol("watch:event-content-never-written", what("event %d (%s %+v) does not carry a version any write produced", i, e.Kind, it), ex)
-			return
-		}
-		if postRestore && a.rolledBack(it.Ver) {
-			a.viol("restore:new-watch-delivers-rolled-back-event", what("event %d (%s %+v) of a watch started after the restore (snapshot index %d, restore after index %d) carries a version that the restore rolled back", i, e.Kind, it, h.Snap.Idx, h.Rest.Idx), ex)
-			return
-		}
-		if eos < 0 { // snapshot phase
-			if e.Kind != "upsert" {
-				a.viol("watch:delete-in-initial-listing", what("event %d is a delete before EndOfSnapshot", i), ex)
-				return
-			}
-			if last[r].known {
-				a.viol("watch:duplicate-in-initial-listing", what("resource %d is listed twice before EndOfSnapshot", r), ex)
-				return
-			}
-			last[r] = wlast{true, true, it.Uid, it.Ver}
-			listing[r] = it
-			if h.P.Backend != "inmem" {
-				lastRaft[r], _ = strconv.ParseUint(it.Ver, 10, 64)
-			}
-			run.Count("watch_snapshot_events")
-		} else {
-			run.Count("watch_live_events")
-			l := last[r]
-			if e.Kind == "upsert" {
-				p := w.Ver // the version the producing write presented
-				switch {
-				case !l.present && p == "":
-					// a create after absence; it must not be a lifetime older than the one seen deleted
-					if l.uid != "" {
-						if prevRoot, newRoot := a.root(r, l.ver), w; prevRoot != nil && newRoot.Ret < prevRoot.Call {
-							a.viol("watch:order:older-lifetime-after-newer", what("event %d creates lifetime %s (created at %d..%d) after the delete of lifetime %s which was created later (%d..%d)", i, it.Uid, newRoot.Call, newRoot.Ret, l.uid, prevRoot.Call, prevRoot.Ret), ex)
-							return
-						}
-					}
-				case !l.present:
-					a.viol("watch:order:update-without-predecessor", what("event %d (upsert %+v, successor of version %s) arrives while the watcher's view of resource %d is absent: an event is missing or this one is stale", i, it, p, r), ex)
-					return
-				case l.present && p == l.ver && it.Uid == l.uid:
-					// the direct successor of what the watcher had: exactly commit order
-				default:
-					cls := "unrelated"
-					switch {
-					case it.Ver == l.ver:
-						cls = "duplicate"
-					case a.isAncestor(r, it.Ver, l.ver):
-						cls = "stale"
-					case a.isAncestor(r, l.ver, it.Ver):
-						cls = "gap"
-					}
-					if cls == "stale" || cls == "duplicate" {
-						if i == eos+1 || a.onlySnapshotBefore(g, eos, i, r) {
-							cls += "-after-initial-listing"
-						}
-					}
-					a.viol("watch:order:"+cls, what("event %d (upsert %+v, successor of version %q) does not directly follow the watcher's current version %s (uid %s) of resource %d [%s]", i, it, p, l.ver, l.uid, r, cls), ex)
-					return
-				}
-				last[r] = wlast{true, true, it.Uid, it.Ver}
-			} else { // delete
-				switch {
-				case !l.present:
-					cls := "delete-of-absent"
-					if i == eos+1 || a.onlySnapshotBefore(g, eos, i, r) {
-						cls += "-after-initial-listing"
-					}
-					a.viol("watch:order:"+cls, what("event %d deletes %+v while the watcher's view of resource %d is absent", i, it, r), ex)
-					return
-				case l.ver != it.Ver || l.uid != it.Uid:
-					cls := "unrelated"
-					switch {
-					case a.isAncestor(r, it.Ver, l.ver):
-						cls = "stale"
-					case a.isAncestor(r, l.ver, it.Ver):
-						cls = "gap"
-					}
-					a.viol("watch:order:delete-"+cls, what("event %d deletes %+v but the watcher's current version of resource %d is %s (uid %s) [%s]", i, it, r, l.ver, l.uid, cls), ex)
-					return
-				}
-				found := false
-				for _, d := range a.dels[r] {
-					found = found || (d.Uid == it.Uid && d.Ver == it.Ver)
-				}
-				if !found {
-					a.viol("watch:delete-event-without-delete", what("event %d deletes %+v but no DeleteCAS presenting that uid and version ever returned success", i, it), ex)
-					return
-				}
-				last[r] = wlast{true, false, it.Uid, it.Ver}
-			}
-			if h.P.Backend != "inmem" {
-				// raft backend: versions are log indexes, so per resource they must also grow numerically
-				n, _ := strconv.ParseUint(it.Ver, 10, 64)
-				if n < lastRaft[r] || (e.Kind == "upsert" && n == lastRaft[r]) {
-					a.viol("watch:order:raft-index-not-increasing", what("event %d (%s %+v) follows version %d of resource %d", i, e.Kind, it, lastRaft[r], r), ex)
-					return
-				}
-				lastRaft[r] = n
-			}
-		}
-		// read-after-event monotonicity
-		rd := e.Read
-		if rd == nil {
-			continue
-		}
-		run.Count("reads_after_event")
-		if a.restored() && !postRestore && rd.Ret > h.Rest.Call {
-			continue // the restore may legitimately have taken the store back
-		}
-		switch {
-		case rd.Err == "" && rd.Out.Ver == it.Ver && rd.Out.Uid == it.Uid:
-			if e.Kind == "delete" {
-				a.viol("watch:read-after-delete-event-sees-deleted-version", what("after the delete event %d for %+v a strong Read returned that very version", i, it), ex)
-				return
-			}
-			run.Count("reads_after_event_same_version")
-		case rd.Err == "" && a.isAncestor(r, rd.Out.Ver, it.Ver):
-			a.viol("watch:read-older-than-event", what("after event %d (%s %+v) a strong Read returned the OLDER version %s", i, e.Kind, it, rd.Out.Ver), ex)
-			return
-		case rd.Err == "" && rd.Out.Uid != it.Uid:
-			if rr, er := a.root(r, rd.Out.Ver), a.root(r, it.Ver); rr != nil && er != nil && rr.Ret < er.Call {
-				a.viol("watch:read-older-lifetime-than-event", what("after event %d (%s %+v) a strong Read returned %+v of a lifetime created earlier", i, e.Kind, it, *rd.Out), ex)
-				return
-			}
-			run.Count("reads_after_event_newer")
-		case rd.Err == "" && e.Kind == "delete" && rd.Out.Uid == it.Uid:
-			a.viol("watch:read-after-delete-event-sees-deleted-lifetime", what("after the delete event %d for %+v a strong Read returned %+v of the same lifetime", i, it, *rd.Out), ex)
-			return
-		case rd.Err == "notfound" && e.Kind == "upsert":
-			if len(a.endsOf(r, it.Uid)) == 0 {
-				a.viol("watch:read-notfound-after-upsert-event", what("after event %d (upsert %+v) a strong Read returned NotFound although no delete of that lifetime ever succeeded", i, it), ex)
-				return
-			}
-			run.Count("reads_after_event_newer")
-		default:
-			run.Count("reads_after_event_newer")
-		}
-	}
-	if eos < 0 {
-		if g.End == "closed" || h.Incomplete != "" {
-			return // closed by a restore before the listing ended
-		}
-		a.viol("watch:no-end-of-snapshot", what("the watch never delivered EndOfSnapshot"), ex)
-		return
-	}
-	// initial listing: complete and not older than what had been acknowledged before WatchList was called
-	ep := a.epoch(g, eosT)
-	if ep < 0 {
-		return
-	}
-	e0 := int64(-1)
-	if ep == 1 {
-		e0 = h.Rest.Ret
-	}
-	earlier := false
-	for _, o := range h.Gens {
-		if o != g && o.Scope.subject() == g.Scope.subject() && o.Call < g.Call && (!a.restored() || (o.Call > h.Rest.Ret) == (ep == 1)) {
-			earlier = true
-		}
-	}
-	suffix := ":fresh-subject"
-	if earlier {
-		suffix = ":after-earlier-watch-on-subject"
-	}
-	for r := 0; r < nRes; r++ {
-		if !g.Scope.matches(r) {
-			continue
-		}
-		// acknowledged states: writes that returned before the call (and, after a restore, the snapshot content)
-		var acks []*opRec
-		for _, w := range a.wr[r] {
-			if w.Ret < g.Call && w.Call > e0 && !(ep == 1 && a.rolledBack(w.Out.Ver)) && !(ep == 0 && a.restored() && w.Ret >= h.Rest.Call) {
-				acks = append(acks, w)
-			}
-		}
-		if ep == 1 {
-			if it, ok := h.Snap.Items[r]; ok {
-				if w := a.wr[r][it.Ver]; w != nil {
-					acks = append(acks, w)
-				}
-			}
-		}
-		x, listed := listing[r]
-		for _, w := range acks {
-			if listed {
-				if a.isAncestor(r, x.Ver, w.Out.Ver) {
-					a.viol("watch:initial-listing:stale-version"+suffix, what("the initial listing has resource %d at version %s although its successor %s had been acknowledged (write returned at %d) before WatchList was called at %d", r, x.Ver, w.Out.Ver, w.Ret, g.Call), ex)
-					return
-				}
-				continue
-			}
-			// not listed: fine only if that lifetime may have been ended by a delete called before the listing ended
-			ended := false
-			for _, d := range a.endsOf(r, w.Out.Uid) {
-				if d.Call < eosT && d.Ret > e0 {
-					ended = true
-				}
-			}
-			if ep == 1 && a.restored() {
-				// a lifetime alive in the snapshot can also have been deleted before the restore only if the
-				// delete was rolled back, which d.Ret > e0 already excludes
-			}
-			if !ended {
-				a.viol("watch:initial-listing:missing-resource"+suffix, what("the initial listing omits resource %d although version %s (uid %s) had been acknowledged at %d, before WatchList was called at %d, and no delete of that lifetime was called before EndOfSnapshot was received at %d", r, w.Out.Ver, w.Out.Uid, w.Ret, g.Call, eosT), ex)
-				return
-			}
-		}
-	}
-	if g.End == "stopped" && h.Incomplete == "" {
-		// the watcher stopped only after it had seen the final version of every resource in scope; with
-		// the chain checks above its materialised view therefore equals the final content
-		for r := 0; r < nRes; r++ {
-			if g.Scope.matches(r) && !(last[r].present && last[r].ver == h.Finals[r]) {
-				a.viol("watch:final-view-differs", what("at the end the watcher's view of resource %d is %+v, the store has version %s", r, last[r], h.Finals[r]), ex)
-				return
-			}
-		}
-		run.Count("watch_final_views_equal")
-	}
-}
-
-// onlySnapshotBefore: between EndOfSnapshot and event i there is no live event for resource r
-func (a *analysis) onlySnapshotBefore(g *watchGen, eos, i, r int) bool {
-	for j := eos + 1; j < i; j++ {
-		if g.Events[j].It.Res == r {
-			return false
-		}
-	}
-	return true
 }
 
 func (a *analysis) watches() {
